@@ -52,6 +52,8 @@ def parse_answer(tok):
         _, sens, rid, p2p, atr = parts[:5]
         return ("F", bytes.fromhex(sens) if sens != "-" else b"", bytes.fromhex(rid) if rid != "-" else b"",
                 p2p == "1", int(atr), int(parts[5]) if len(parts) > 5 else 0)
+    if tok.startswith("A."):
+        return ("A", tok[2:])          # real-LLC runs: activation succeeds, the peer then behaves as the pattern says
     if tok.startswith("p"):
         return ("p", int(tok[1:]))
     return (tok,)
@@ -90,7 +92,10 @@ class World(object):
         self.tags = []          # Tag objects the real nfc.tag.activate returned
         self.act_targets = []   # the targets nfc.tag.activate was called with
         self.commands = []      # command frames seen by send_cmd_recv_rsp (real-tag runs)
-        self.link = []          # NFC-DEP exchanges of the real link loop (real-LLC runs)
+        self.link = []          # NFC-DEP exchanges of the real link loop (real-LLC runs): what the local side sent
+        self.term_at = None     # real-LLC busy-traffic runs: terminate() is true from this number of link exchanges on
+        self.term_cap = 60      # ... or after this many polls (a run without any link cannot go on for ever)
+        self.polls = 0
         self.activations = []   # (log position, success) of every NFC-DEP activation attempt (real-LLC runs)
 
     def pop(self, site):
@@ -118,7 +123,11 @@ class World(object):
     def terminate(self):
         if len(self.log) > LIMIT:
             raise Runaway("more than %d events, last: %s" % (LIMIT, " ".join(self.log[-6:])))
-        b = self.ts.pop(0) if self.ts else True
+        self.polls += 1
+        if self.term_at is not None:
+            b = len(self.link) >= self.term_at or self.polls > self.term_cap
+        else:
+            b = self.ts.pop(0) if self.ts else True
         self.log.append("t1" if b else "t0")
         return b
 
@@ -381,6 +390,9 @@ def installed_real_llc(nfc, world):
     only the NFC-DEP MAC below them is scripted (nfc.dep.Initiator/Target.activate, exchange,
     deactivate).  An activation attempt logs la:t / la:i and consumes one answer:
       F.<..>.<..>.<..>.<k>  the peer answers ATR with LLCP general bytes, then k SYMM PDUs, then is gone
+      A.<pattern>           the same with one letter per exchange the peer answers: s SYMM, c CONNECT by name for
+                            an unknown service (the local link layer then has a DM to send: busy in both
+                            directions), u UI for an unbound address (received, nothing to send), d DISC
       i / K                 IOError / KeyboardInterrupt        anything else: nobody there (None)
     exchange() is recorded in world.link (not in the log) and consumes nothing."""
     import nfc.clf
@@ -398,11 +410,11 @@ def installed_real_llc(nfc, world):
             w.log.append(tok)
             a, i = w.pop(tok)
             w.common_raise(a, tok)
-            ok = a[0] == "F"
+            ok = a[0] in ("F", "A")
             w.activations.append((len(w.log) - 1, ok))
             if not ok:
                 return None
-            self._symm_left = a[4]
+            self._pattern = list(a[1]) if a[0] == "A" else ["s"] * a[4]
             self.rwt = 0.001
             self.miu = 248
             self.did = None
@@ -410,12 +422,19 @@ def installed_real_llc(nfc, world):
             return bytearray(b"Ffm" + bytes([1, 1, 0x13, 2, 2, 0x00, 0x78, 4, 1, 50]))
         return activate
 
+    SN = b"urn:nfc:sn:nosuch"
+    PEER = {"s": b"\x00\x00", "c": bytes([0x05, 0x20, 0x06, len(SN)]) + SN, "u": b"\x40\xE0x", "d": b"\x01\x40"}
+
     def exchange(self, data, timeout):
-        W().link.append("dx")      # link-level traffic: not part of connect()'s documented history
-        left = getattr(self, "_symm_left", 0)
-        if left > 0:
-            self._symm_left = left - 1
-            return bytearray(b"\x00\x00")
+        w = W()
+        if len(w.link) > LIMIT:
+            raise Runaway("more than %d link exchanges" % LIMIT)
+        w.link.append(bytes(data).hex() if data is not None else "-")   # link-level traffic: not in connect()'s history
+        if data is not None and bytes(data[:2]) == b"\x01\x40":          # our DISC: the peer confirms with DM
+            return bytearray(b"\x01\xC0\x00")
+        pattern = getattr(self, "_pattern", [])
+        if pattern:
+            return bytearray(PEER[pattern.pop(0)])
         return None
 
     def deactivate(self, *a, **k):
